@@ -812,3 +812,95 @@ func PSyncCalls(c *core.Ctx, rule string, only string) int {
 	}
 	return n
 }
+
+// SyncSpan is the stretch of DbSyncer.Sync between a successful sendPSyncCmd
+// and the start of the incremental phase (the call of syncCommand).
+type SyncSpan struct {
+	Fn     *core.Fn
+	G      *cfgq.Graph
+	Info   *types.Info
+	psync  []cfgq.Point
+	isIncr func(ast.Node) bool
+	Direct bool // syncCommand is called by Sync itself (not only through a helper)
+}
+
+// NewSyncSpan locates the span; nil when Sync, sendPSyncCmd or syncCommand are not found.
+func NewSyncSpan(c *core.Ctx) *SyncSpan {
+	syncFn := c.LookupFunc(DbSync, Syncer, "Sync")
+	psync := c.LookupFunc(DbSync, Syncer, "sendPSyncCmd")
+	incr := c.LookupFunc(DbSync, Syncer, "syncCommand")
+	if syncFn == nil || psync == nil || incr == nil || syncFn.Decl.Body == nil {
+		return nil
+	}
+	sp := &SyncSpan{Fn: syncFn, G: cfgq.Of(c.Program, syncFn), Info: syncFn.Pkg.TypesInfo}
+	has := func(target *types.Func, direct *bool) func(ast.Node) bool {
+		return func(n ast.Node) bool {
+			for _, call := range cfgq.ExecCalls(n) {
+				if core.CalleeFunc(sp.Info, call) == syncFn.Obj {
+					continue // the restart `go ds.Sync()` of an error arm is another run
+				}
+				if core.CalleeFunc(sp.Info, call) == target {
+					if direct != nil {
+						*direct = true
+					}
+					return true
+				}
+				if CalleeHas(c, sp.Info, call, 2, func(i *types.Info, m ast.Node) bool {
+					cl, ok := m.(*ast.CallExpr)
+					return ok && core.CalleeFunc(i, cl) == target
+				}) {
+					return true
+				}
+			}
+			return false
+		}
+	}
+	sp.psync = sp.G.Points(has(psync.Obj, nil))
+	sp.isIncr = has(incr.Obj, nil)
+	for _, pt := range sp.G.Points(has(incr.Obj, &sp.Direct)) {
+		_ = pt
+	}
+	if len(sp.psync) == 0 || len(sp.G.Points(sp.isIncr)) == 0 {
+		return nil
+	}
+	return sp
+}
+
+// Skips returns a path from a sendPSyncCmd call to the start of the incremental
+// phase on which no node satisfies must (nil: there is none).
+func (sp *SyncSpan) Skips(must func(ast.Node) bool) []string {
+	for _, pt := range sp.psync {
+		// a statement that both does what is required and starts the incremental phase (a phase helper) is fine
+		if w := sp.G.Path(cfgq.Query{From: pt, After: true, Avoid: must, Target: func(n ast.Node) bool { return sp.isIncr(n) && !must(n) }}); w != nil {
+			return w
+		}
+	}
+	return nil
+}
+
+// InCallee: the node n (of body with type info info) executes, directly or in a module helper it calls, a node accepted by pred.
+func InCallee(c *core.Ctx, info *types.Info, n ast.Node, pred func(*types.Info, ast.Node) bool) bool {
+	found := false
+	ast.Inspect(n, func(m ast.Node) bool {
+		if found || m == nil {
+			return false
+		}
+		if _, isLit := m.(*ast.FuncLit); isLit {
+			return false
+		}
+		if pred(info, m) {
+			found = true
+			return false
+		}
+		return true
+	})
+	if found {
+		return true
+	}
+	for _, call := range cfgq.ExecCalls(n) {
+		if CalleeHas(c, info, call, 2, pred) {
+			return true
+		}
+	}
+	return false
+}
